@@ -237,6 +237,18 @@ def numeric_fallback(ob, seed, n=200):
                 tgt[cname] = dict(sample=_jsonable(r['sample']), dtype='float64', detail=_jsonable(det), regimes=sorted(set(r.get('regimes', {}).values())))
         if r['outcome'] == 'raised' and 'no_unexpected_exception' not in tgt:
             tgt['no_unexpected_exception'] = dict(sample=_jsonable(r['sample']), dtype='float64', detail=r['error'])
+    if any(k not in found for k in suspect):
+        # look for the same failures at generic inputs only (every declared input in its generic regime)
+        gen = lambda d, r: ('generic' if 'generic' in d.regimes else d.regimes[0])
+        for k in range(max(50, n // 2)):
+            tried += 1
+            r = E.run_numeric(ob.fn, sample=None, tol=ob.opts.get('tol', 1e-7), rng=rng, regime=gen)
+            for cname, stt, det in r['clauses']:
+                if stt == 'failed' and cname not in found:
+                    found[cname] = dict(sample=_jsonable(r['sample']), dtype='float64', detail=_jsonable(det), regimes=['generic'])
+            if r['outcome'] == 'raised' and 'no_unexpected_exception' not in found:
+                found['no_unexpected_exception'] = dict(sample=_jsonable(r['sample']), dtype='float64', detail=r['error'])
+            if all(k2 in found for k2 in suspect): break
     return dict(found=found, tried=tried, suspect={k: v for k, v in suspect.items() if k not in found})
 
 
